@@ -191,6 +191,8 @@ class P(drive_C10.P):
                 self._socks_name = False
             elif r < 0.74:
                 op = ['save', None if rng.random() < 0.75 else rng.choice([552, 513])]
+                if rng.random() < 0.25:
+                    op = self._flight(rng, sim, opts, lists, event=lambda: self._event(rng, opts, defaults))
             elif r < 0.90:
                 op = ['read', casevar(rng, rng.choice(opts)[0])]
             elif r < 0.97 and has_socks:
@@ -199,6 +201,8 @@ class P(drive_C10.P):
                 op = ['needs_save']
             s2 = sim.clone()
             s2.step(op)
+            if s2.fs:
+                continue
             if clean:
                 if any(s2.flags()):
                     continue
